@@ -204,6 +204,7 @@ pub fn run_check(ctx: &Ctx) {
     let n = ctx.tier.pick(100_000u64, 2_000_000);
     let long = LitCfg { max_int_digits: ctx.tier.pick(300, 600), max_frac_digits: ctx.tier.pick(300, 600), max_exp: 999, allow_percent: true, allow_neg: true, allow_plus: true, allow_exotic: true };
     ctx.run_gen("random-long", || gen::lit(long).prop_map(|l| LitCase { lit: l.text }), n / 40, check, |c| to_json(c));
+    ctx.run_gen("word-boundary", || gen::word_boundary_lit().prop_map(|l| LitCase { lit: l.text }), n / 10, check, |c| to_json(c));
     let mid = LitCfg { max_int_digits: 30, max_frac_digits: 30, max_exp: 99, ..long };
     ctx.run_gen("random-mid", || gen::lit(mid).prop_map(|l| LitCase { lit: l.text }), n, check, |c| to_json(c));
 }
